@@ -8,7 +8,7 @@ Split surface card into name, transform, type and list of coeffs.
 import re
 
 re_surface = re.compile(r"""^\s*([+*]*\d+)\s+
-                            ([-+]*\d*\s*)
+                            ((?:[-+]*\d+\s+)?)
                             ([a-zA-Z/]+)\s+
                             (.*)$""", re.VERBOSE)
 
